@@ -702,7 +702,7 @@ func vTokenPool() []Token {
 		return numberVal{stringVal{Value: v, flag: newFlag(isInteger, isInt)}, f}
 	}
 	var pool []Token
-	for _, id := range []string{"a", "-a", "--a", "1a", "-1", "e", "E-3", "é", "a b", "a\\b", "a\nb", "_", "-", "a(", "0g", "a.b"} {
+	for _, id := range []string{"a", "-a", "--a", "1a", "1A", "-1F", "1 a", "-1", "e", "E-3", "é", "a b", "a\\b", "a\nb", "_", "-", "a(", "0g", "a.b"} {
 		pool = append(pool, Ident{stringVal{Value: id}})
 		pool = append(pool, AtKeyword{stringVal{Value: id}})
 		pool = append(pool, Hash{stringVal{Value: id, flag: isIdentifier}})
